@@ -74,7 +74,7 @@ def _scenario(bits, acl_pos, d_up, bw, perm):
     if bits["defaults"]:
         cfg["simulation"]["defaults"] = {"node_start_up_duration": 2, "node_shut_down_duration": 4, "node_scan_duration": 6, "service_fix_duration": 7, "folder_scan_duration": 2, "folder_restore_duration": 3}
     if bits["off"]:
-        c2["operating_state"] = "OFF"
+        c2["operating_state"] = "off"  # (any capitalisation is legal: the loader upper-cases it)
     if bits["durations"]:
         c1["start_up_duration"] = d_up
         c1["shut_down_duration"] = d_up + 1
